@@ -1,5 +1,5 @@
 """C04 — parsing is total; index/err discipline (structural clauses; the accepted language is not decided)."""
-from ..rules import parser, data
+from ..rules import parser, data, normal
 
 EXPL = ("Decides: (1) SA-PANIC totality: every panic edge in the call-graph closure of the six generic parse entry points "
         "(from_bytes, from_bytes_with_last_index, from_str for plain and dual types) in release-like configurations is discharged "
@@ -25,5 +25,6 @@ def run(ctx):
         ctx.guard("C04", "lookahead", lambda: parser.strict_lookahead(ctx, prog))
         ctx.guard("C04", "blocksize", lambda: parser.block_size_field(ctx, prog))
         ctx.guard("C04", "forms", lambda: parser.entry_forms(ctx, prog))
+        ctx.guard("C04", "runlimit", lambda: normal.run_limit_agreement(ctx, prog))
         ctx.guard("C04", "tables", lambda: data.base64_tables(ctx, prog))
     return ctx.finish(EXPL, ["overflow checks of debug builds are not part of the verdict (release-like configurations decide)", "core slice/iterator APIs panic only as documented", "residue entries are reviewed by hand; each states its reason"])
